@@ -16,6 +16,7 @@ import (
 	"errors"
 	"fmt"
 	"math/rand"
+	"os"
 	"runtime"
 	"sort"
 	"strings"
@@ -144,7 +145,10 @@ func offerCtx(block bool) (context.Context, context.CancelFunc) {
 	return parkCancel{Context: ctx, cancel: cancel}, cancel
 }
 
-func newIncarnation(st *qstore.Store, consumers int, auto bool, capacity int64, block bool) (*incarnation, error) {
+// legacyBatcher: the scripted incarnations of some scripts are built with the deprecated WithBatcher option on
+// top of the persistent queue (min_size 0, no max_size: every request is flushed at once as its own batch,
+// through the batcher's worker pool), the way exporters with `batcher::enabled: true` are.
+func newIncarnation(st *qstore.Store, consumers int, auto bool, capacity int64, block bool, legacyBatcher ...bool) (*incarnation, error) {
 	in := &incarnation{st: st, entered: make(chan *entry, 256)}
 	in.auto.Store(auto)
 	cfg := exporterhelper.NewDefaultQueueConfig()
@@ -161,6 +165,15 @@ func newIncarnation(st *qstore.Store, consumers int, auto bool, capacity int64, 
 	rcfg.Multiplier = 1
 	set := exportertest.NewNopSettings(component.MustNewType("verif"))
 	set.Logger = zap.NewNop()
+	opts := []exporterhelper.Option{exporterhelper.WithQueue(cfg), exporterhelper.WithRetry(rcfg), exporterhelper.WithTimeout(exporterhelper.TimeoutConfig{})}
+	if len(legacyBatcher) > 0 && legacyBatcher[0] {
+		bc := exporterhelper.NewDefaultBatcherConfig()
+		bc.Enabled = true
+		bc.FlushTimeout = time.Hour
+		bc.MinSize = 0
+		bc.MaxSize = 0
+		opts = append(opts, exporterhelper.WithBatcher(bc))
+	}
 	exp, err := exporterhelper.NewLogs(context.Background(), set, struct{}{}, func(_ context.Context, ld plog.Logs) error {
 		b, _ := marshaler.MarshalLogs(ld)
 		in.mu.Lock()
@@ -173,7 +186,7 @@ func newIncarnation(st *qstore.Store, consumers int, auto bool, capacity int64, 
 			return nil
 		}
 		return <-e.gate
-	}, exporterhelper.WithQueue(cfg), exporterhelper.WithRetry(rcfg), exporterhelper.WithTimeout(exporterhelper.TimeoutConfig{}))
+	}, opts...)
 	if err != nil {
 		return nil, err
 	}
@@ -228,18 +241,19 @@ func (in *incarnation) abandon() {
 }
 
 type runResult struct {
-	accepted   map[string]bool
-	finalized  map[string]bool
-	image      map[string][]byte
-	ops        int
-	died       bool
-	trace      []string
-	unsettled  int
-	badBytes   []string
-	unknown    []string
-	stuck      string
-	startStuck string // Start (recovery) of a scripted incarnation never returned: blocked frames
-	phase      string // what the driver was doing when the store died
+	accepted    map[string]bool
+	finalized   map[string]bool
+	image       map[string][]byte
+	ops         int
+	died        bool
+	trace       []string
+	unsettled   int
+	badBytes    []string
+	unknown     []string
+	stuck       string
+	unsettledAt []string
+	startStuck  string // Start (recovery) of a scripted incarnation never returned: blocked frames
+	phase       string // what the driver was doing when the store died
 }
 
 // settleWait bounds the driver's wait for the next expected event. It is scheduling only (it keeps the
@@ -263,10 +277,16 @@ const enoughLosses = 60
 
 // runScript executes one script on a store that already holds `image`; recovered is the number of
 // requests a fault-free recovery of the image hands off (the model's initial queue length).
-func runScript(known map[string][]byte, image map[string][]byte, recovered int, sc []step, consumers, crashAt int, capacity int64, block bool) *runResult {
+func runScript(known map[string][]byte, image map[string][]byte, recovered int, sc []step, consumers, crashAt int, capacity int64, block bool, legacy bool) *runResult {
 	r := &runResult{accepted: map[string]bool{}, finalized: map[string]bool{}}
 	st := qstore.New(image, crashAt)
-	in, err := newIncarnation(st, consumers, false, capacity, block)
+	// with batching configured the queue runs a single consumer (and the batcher a single worker), whatever
+	// num_consumers says
+	effConsumers := consumers
+	if legacy {
+		effConsumers = 1
+	}
+	in, err := newIncarnation(st, consumers, false, capacity, block, legacy)
 	r.phase = "start+recovery"
 	if err != nil {
 		if errors.Is(err, errStartStuck) {
@@ -286,7 +306,7 @@ func runScript(known map[string][]byte, image map[string][]byte, recovered int, 
 		}
 	}
 	settle := func() {
-		for len(busy)+len(parked) < consumers && queued > 0 && !st.Dead() {
+		for len(busy)+len(parked) < effConsumers && queued > 0 && !st.Dead() {
 			select {
 			case e := <-in.entered:
 				checkEntry(e)
@@ -296,6 +316,7 @@ func runScript(known map[string][]byte, image map[string][]byte, recovered int, 
 				return
 			case <-time.After(settleWait()):
 				r.unsettled++
+				r.unsettledAt = append(r.unsettledAt, r.phase)
 				settleExpired()
 				return
 			}
@@ -323,6 +344,7 @@ func runScript(known map[string][]byte, image map[string][]byte, recovered int, 
 				return
 			case <-t.C:
 				r.unsettled++
+				r.unsettledAt = append(r.unsettledAt, r.phase)
 				settleExpired()
 				return
 			}
@@ -382,6 +404,7 @@ func runScript(known map[string][]byte, image map[string][]byte, recovered int, 
 			case <-st.DeadCh():
 			case <-time.After(settleWait()):
 				r.unsettled++
+				r.unsettledAt = append(r.unsettledAt, r.phase)
 				settleExpired()
 			}
 			res := make(chan error, 1)
@@ -471,7 +494,7 @@ func runScript(known map[string][]byte, image map[string][]byte, recovered int, 
 				break
 			}
 			r.phase = "restart:start+recovery"
-			in2, err := newIncarnation(st, consumers, false, capacity, block)
+			in2, err := newIncarnation(st, consumers, false, capacity, block, legacy)
 			if err != nil {
 				if errors.Is(err, errStartStuck) {
 					r.startStuck = err.Error()
@@ -622,6 +645,7 @@ type explorer struct {
 	stride    []int // boundary stride per depth
 	rng       *rand.Rand
 	consumers int
+	legacy    bool  // scripted incarnations use the deprecated WithBatcher option on top of the persistent queue
 	block     bool  // block_on_overflow of the scripted incarnations (enqueues that would park are cancelled at once)
 	capacity  int64 // queue_size of the scripted incarnations: small values make enqueues (and the recovery's re-enqueues) meet a full queue
 	scriptID  string
@@ -745,8 +769,11 @@ func (x *explorer) explore(image map[string][]byte, carry map[string]bool, depth
 			x.register(s.ID)
 		}
 	}
-	base := runScript(x.known, image, len(d.ids), sc, x.consumers, -1, x.capacity, x.block)
+	base := runScript(x.known, image, len(d.ids), sc, x.consumers, -1, x.capacity, x.block, x.legacy)
 	c.Observe("incarnation_runs", 1)
+	if base.unsettled > 0 && os.Getenv("C01_DEBUG") != "" {
+		c.Note("DEBUG unsettled base run: script=%s consumers=%d cap=%d legacy=%v block=%v at=%v trace=%v recovered=%d", scriptString(sc), x.consumers, x.capacity, x.legacy, x.block, base.unsettledAt, base.trace, len(d.ids))
+	}
 	if base.startStuck != "" {
 		x.reportStartStuck(base, path, sc, "fault-free")
 		return
@@ -764,11 +791,14 @@ func (x *explorer) explore(image map[string][]byte, carry map[string]bool, depth
 		if stride > 1 && b%stride != (int(x.c.Seed)+depth)%stride && b != base.ops {
 			continue
 		}
-		r := runScript(x.known, image, len(d.ids), sc, x.consumers, b, x.capacity, x.block)
+		r := runScript(x.known, image, len(d.ids), sc, x.consumers, b, x.capacity, x.block, x.legacy)
 		c.Eval()
 		c.Observe("incarnation_runs", 1)
 		c.Observe("crash_runs", 1)
 		c.Observe("unsettled_steps", int64(r.unsettled))
+		for _, ph := range r.unsettledAt {
+			c.Observe("unsettled_at:"+ph, 1)
+		}
 		if r.startStuck != "" {
 			x.reportStartStuck(r, append(append([]string{}, path...), fmt.Sprint(b)), sc, "crashed")
 			continue
@@ -851,6 +881,11 @@ func run(c *driver.Ctx) {
 				c.Observe("scripts_with_block_on_overflow", 1)
 			}
 			c.Observe("scripts_with_small_queue", 1)
+		}
+		if g%5 == 3 {
+			x.legacy = true
+			x.scriptID += " legacy-batcher"
+			c.Observe("scripts_with_legacy_batcher", 1)
 		}
 		c.Observe("scripts", 1)
 		x.explore(map[string][]byte{}, map[string]bool{}, 0, nil, sc, "-", nil)
